@@ -75,8 +75,23 @@ def gen_range(rng: random.Random):
 def gen_stream_ops(rng: random.Random, seed_pool, n: int, label_base: str):
     """Operation list for ONE stream (twins share it)."""
     ops, labels = [], []
+    heavy = rng.random() < 0.15     # checkpoint-heavy: chains of save / restore / save with and without draws in between
     for t in range(n):
         r = rng.random()
+        if heavy:
+            if r < 0.30 or (r < 0.65 and not labels):
+                lab = f"{label_base}{len(labels)}"; labels.append(lab); ops.append(["save", lab])
+            elif r < 0.65:
+                ops.append(["restore", rng.choice(labels)])
+            elif r < 0.80:
+                ops.append(["f"])
+            elif r < 0.90:
+                ops.append(["i", 1, 6])
+            elif r < 0.95:
+                ops.append(["b"])
+            else:
+                ops.append([rng.choice(["reset", "qseed"])])
+            continue
         if r < 0.22:
             ops.append(["f"])
         elif r < 0.46:
